@@ -266,6 +266,18 @@ def extract_dispatch(repo):
     b = arm_body(r"\bExists\(graph_pattern\) => \{", "Exists")
     if "Err(_) => false" not in b or "exec_state.select(graph_pattern, graph_matcher, Some(binding))" not in b:
         raise ExtractError("%s: eval: arm Exists changed: %r" % (EXPR, b[:200]))  # noqa: F821
+    ntext = read(repo, "sparql/src/value/_number.rs")  # noqa: F821
+    m = re.search(r"impl std::ops::Neg for &'_ SparqlNumber \{", ntext)
+    if not m:
+        raise ExtractError("sparql/src/value/_number.rs: impl Neg not found")  # noqa: F821
+    nb = re.sub(r"\s+", " ", ntext[m.end():_balanced(ntext, m.end() - 1, "impl Neg")])
+    if "SparqlNumber::NativeInt(inner) => Some((-inner).into())," in nb:
+        neg_checked = False
+    elif re.search(r"SparqlNumber::NativeInt\(inner\) => Some\( inner \.checked_neg\(\) "
+                   r"\.map_or_else\(\|\| \(-BigInt::from\(\*inner\)\)\.into\(\), Into::into\), \),", nb):
+        neg_checked = True
+    else:
+        raise ExtractError("sparql/src/value/_number.rs: Neg for NativeInt is written in a way the model does not know")  # noqa: F821
     n_calls = len(re.findall(r"self\.check_exists\(", text))
     if "fn check_exists" not in text and n_calls == 0:
         exists_checked = False
@@ -301,10 +313,13 @@ def extract_dispatch(repo):
            "/-- `ExecState::{filter, extend, order_by}` probe the EXISTS patterns of their expression and return\n"
            "their refusal (`true` once notes/fixes/C13-exists-swallows-refusal.diff is applied) -/\n",
            "def existsChecked : Bool := %s\n\n" % ("true" if exists_checked else "false"),
+           "/-- unary minus on `NativeInt` is `checked_neg`, promoted to `BigInt` on overflow (commit 8d7de80): exact,\n"
+           "as the model's unbounded integers; `false`: `-inner`, which panics on `isize::MIN` in a debug build -/\n",
+           "def negChecked : Bool := %s\n\n" % ("true" if neg_checked else "false"),
            "end SophiaModel.Gen.SparqlDispatch\n"]
     return "".join(out), {"select": table, "query": qtable, "from_named": from_named,
                           "or_and_lenient": or_and_lenient, "graph_empty_fixed": graph_empty_fixed,
-                          "in_lenient": in_lenient, "if_ebv_strict": if_ebv_strict, "exists_checked": exists_checked}
+                          "in_lenient": in_lenient, "if_ebv_strict": if_ebv_strict, "exists_checked": exists_checked, "neg_checked": neg_checked}
 
 
 EXTRACTORS = {"sparql_dispatch": ("SparqlDispatch.lean", extract_dispatch)}
